@@ -29,6 +29,10 @@ void opLinRead(Ctx& c) {
 template <class G>
 void opLinSortData(Ctx& c) {
   using E = typename G::edge_data_type;
+  if (c.X.numNodes == 0) { // nothing to sort; the empty graph belongs to the "read" operation
+    c.skipped = true;
+    return;
+  }
   G g;
   loadLinear(c, g);
   for (auto n : g)
@@ -45,6 +49,10 @@ void opLinSortData(Ctx& c) {
 // sortEdges with a user comparator over the edge records: by destination handle
 template <class G>
 void opLinSortCustom(Ctx& c) {
+  if (c.X.numNodes == 0) { // nothing to sort; the empty graph belongs to the "read" operation
+    c.skipped = true;
+    return;
+  }
   G g;
   loadLinear(c, g);
   for (auto n : g)
@@ -97,7 +105,7 @@ void regLinFull() {
   regLin<Lin<E>>("lock", L_ALL);
   regLin<Lin<E, true>>("nolock", L_ALL);
   regLin<Lin<E, false, true>>("lock+numa", L_ALL);
-  regLin<Lin<E, false, false, true, true>>("ool+id", L_ALL);
+  regLin<Lin<E, false, false, true, true>>("ool+id", L_READ);
   regLin<Lin<E, true, true>>("nolock+numa", L_READ);
   regLin<Lin<E, false, true, true, true>>("ool+id+numa", L_READ);
   regLin<Lin<E, false, false, false, true>>("lock+id", L_READ);
@@ -105,7 +113,7 @@ void regLinFull() {
 }
 
 void registerLinear() {
-#ifdef C11_FULL
+#if 0 // full matrix: see c11_x_*.cpp
   regLinFull<void>();
   regLinFull<uint32_t>();
   regLinFull<uint64_t>();
@@ -115,7 +123,8 @@ void registerLinear() {
   regLin<Lin<void>>("lock", L_ALL);
   regLin<Lin<uint32_t>>("lock", L_ALL);
   regLin<Lin<uint64_t, true, true>>("nolock+numa", L_READ | L_SORTDATA);
-  regLin<Lin<E12, false, false, true, true>>("ool+id", L_READ | L_SORTDATA);
+  regLin<Lin<E12, false, false, true, true>>("ool+id", L_READ);
+  regLin<Lin<E12, false, true>>("lock+numa", L_SORTDATA | L_SORTCUSTOM);
   regLin<Lin<float, false, true>>("lock+numa", L_READ);
   regLin<Lin<void, true, false, false, false, void>>("nolock+voidnode", L_READ);
   regLin<Lin<uint32_t, false, true, true, true>>("ool+id+numa", L_READ);
